@@ -41,6 +41,8 @@ def ref_project(name):
 
 
 def c17_scenarios(seed, quick, cases, call, scn):
+    import plans
+    plans_start = plans.start
     rnd = random.Random(seed)
     names = bad_names(rnd, cases, 40 if quick else 400)
     out = []
@@ -150,6 +152,16 @@ def c17_scenarios(seed, quick, cases, call, scn):
     for mx in (0, -1, -1000, -2147483648, 2147483647, 65536, 65537):
         mids += [call(4, op="Publish", topic=T1, msgs=[{"p": "mx%d" % mx}]), call(4, op="Pull", sub=S1, max=mx, ri=True),
                  call(4, op="Pull", sub=S1, max=10, ri=True)]
+    # ... and as WAITING pulls with a message available: answered (not parked for ever), and an ordinary
+    # consumer waiting behind them is served
+    for mx in (0, 65536, -2147483648, 131072):
+        mids += [call(4, op="Publish", topic=T1, msgs=[{"p": "wmx%d" % mx}]),
+                 plans_start("wz", 6, op="Pull", sub=S1, max=mx, ri=False), {"do": "settle"}, {"do": "quiet"},
+                 {"do": "abort", "h": "wz"}, call(4, op="Pull", sub=S1, max=10, ri=True)]
+        mids += [plans_start("wz", 6, op="Pull", sub=S1, max=mx, ri=False), {"do": "settle"},
+                 plans_start("wo", 7, op="Pull", sub=S1, max=10, ri=False), {"do": "settle"},
+                 call(4, op="Publish", topic=T1, msgs=[{"p": "wmy%d" % mx}]), {"do": "settle"}, {"do": "quiet"},
+                 {"do": "abort", "h": "wz"}, {"do": "abort", "h": "wo"}, call(4, op="Pull", sub=S1, max=10, ri=True)]
     add("c17-pull-limits", mids)
     # inconsistent StreamingPull control messages (each ends its stream; everything else lives on)
     mids = []
